@@ -353,6 +353,19 @@ def run(ctx):
                     verdict, why = 'undecided', 'arguments / text are not plain locals'
         elif not ins:
             verdict, why = 'wrong', 'the `define handler never inserts into the table'
+        # ... and the strings of the record are the directive's lexemes VERBATIM: a slice of the source (`X.str(&s)`) that goes through trim /
+        # replace / case folding before it is stored is no longer the name, default or body that was written (a default `hello ` recorded
+        # as `hello` changes what `"x``y`" expands to)
+        TRANSFORM = ('trim', 'trim_end', 'trim_start', 'trim_matches', 'trim_end_matches', 'trim_start_matches', 'replace', 'replacen', 'to_lowercase', 'to_uppercase',
+                     'to_ascii_lowercase', 'to_ascii_uppercase', 'strip_prefix', 'strip_suffix', 'split', 'split_whitespace', 'lines', 'truncate', 'repeat')
+        for n in sx.walk(body):
+            if n.get('k') == 'mcall' and n['m'] in TRANSFORM:
+                rc = n['recv']
+                while isinstance(rc, dict) and rc.get('k') in ('mcall', 'ref', 'paren') and not (rc.get('k') == 'mcall' and rc['m'] == 'str'):
+                    rc = rc.get('recv') if rc.get('k') == 'mcall' else rc.get('e')
+                if isinstance(rc, dict) and rc.get('k') == 'mcall' and rc['m'] == 'str' and len(rc['args']) == 1:
+                    if verdict != 'wrong':
+                        verdict, why = 'wrong', ('a lexeme of the directive is changed before it is recorded (`%s`): the table no longer holds the text that was written' % sq(n)[:50])
         w.inst('define-record', {'verdict': verdict, 'why': why})
         if verdict == 'wrong':
             w.fail('%s:define-record' % CRATE, pp.where(d_arm[0].line), '`define must insert, under the macro\'s own name, a Define built from that directive\'s name, formals and text: %s' % why)
@@ -604,7 +617,12 @@ def chain_rules(ctx):
                     t += ' ' + sq(pp.fns[n['f']['p']]['body'])
             return t
         q.inst('enter-arms', {'found': [bool(e1), bool(e2)]})
-        if not e1 or not e2:
+        if bool(e1) != bool(e2):
+            missing = 'plain text' if not e1 else 'directives'
+            q.fail('%s:include-line:enter-test' % CRATE, pp.where(m.get('l')),
+                   'an item entered on the line of a preceding `include must raise IncludeLine for plain text and for directives alike; the line-tracking match has no Enter arm '
+                   'for %s any more, so `include "f" followed on the same line by %s is accepted' % (missing, 'text' if not e1 else 'another directive (`define, `undef, a macro usage)'))
+        elif not e1 or not e2:
             q.undecided('%s:include-line:enter-arms' % CRATE, pp.where(m.get('l')), 'the Enter arms of the line-tracking match were not found')
         else:
             a1, a2 = sq(sx.alpha(e1['body'])), sq(sx.alpha(e2['body']))
